@@ -458,6 +458,8 @@ def check(run):
             N.report(run, lap[0], on_failed=_on_failed_vc)
     if want("safety"):
         C04_safety.check(run)
+    if only is None:
+        float_instantiations(run)
     if want("gray"):
         C04_ghost.check(run)
         C04_gray.check(run)
@@ -480,8 +482,8 @@ def check(run):
     run.assume("floating statements are dropped from the skeleton (their index expressions are kept as bounds obligations); no branch or "
                "loop condition depends on a floating value (the translator refuses otherwise)")
     run.assume("unsigned arithmetic is verified under the stricter obligation that it never wraps")
-    run.assume("the float instantiations of the two permanent kernels share the verified source text of the skeleton but are not "
-               "verified separately; pfaffian_cpp<double> is verified for memory safety only (contracts/C04_safety.py); torontonian / Pfaffian / hafnian kernels are covered only by the bounded accuracy check; 'no undefined behaviour' "
+    run.assume("the float instantiations of the kernels are covered through the equality of their integer skeletons with the verified "
+               "double instantiations (obligation same-integer-skeleton-as-<double>); pfaffian_cpp<double> is verified for memory safety only (contracts/C04_safety.py); torontonian / Pfaffian / hafnian kernels are covered only by the bounded accuracy check; 'no undefined behaviour' "
                "of the floating kernels is not covered (sanitizers are a different family)")
     run.assume("OpenMP: the parallel loop body is verified for an arbitrary job index; its integer state is loop-local")
 
@@ -518,6 +520,34 @@ def gray_counter_bounded_in_child(run):
     if "bounded" in d:
         b = d["bounded"]
         run.bounded_result(b.pop("name"), **b)
+
+
+def float_instantiations(run):
+    """the float instantiations of the kernels have, character for character, the same integer skeleton as the double ones
+    that are verified: the same verification conditions, hence the same proofs (checked on every run; a difference is reported
+    as undecided - the float instantiation would then need its own proof)"""
+    import ast as _ast
+
+    from vf import cppvc
+
+    cases = [("src/permanent.cpp", "permanent_cpp", "std::complex<double> (", "std::complex<float> (", N.KERNEL_TRANSLATION),
+             ("src/permanent_laplace.cpp", "permanent_laplace_cpp", "Vector<std::complex<double>> (", "Vector<std::complex<float>> (", N.KERNEL_TRANSLATION),
+             ("src/pfaffian.cpp", "pfaffian_cpp", "double (", "float (", {"float_branches_nondet": True})]
+    for src, name, td, tf, tr in cases:
+        oname = f"{src}:{name}<float>/same-integer-skeleton-as-<double>"
+        try:
+            docs = cppvc.clang_ast(src, name)
+            a, _ = cppvc.translate(cppvc.find_function(docs, name, td), tr)
+            b, _ = cppvc.translate(cppvc.find_function(docs, name, tf), tr)
+        except (pyvc.Unsupported, StopIteration) as e:
+            run.undecided_ob(oname, "cppvc", "clang-ast", f"{type(e).__name__}: {e}")
+            continue
+        if _ast.unparse(a) == _ast.unparse(b):
+            run.discharged(oname, "cppvc", "skeleton-equality", 0.0, function=f"{src}:{name}<float>",
+                           sample={"skeleton_characters": len(_ast.unparse(a))})
+        else:
+            run.undecided_ob(oname, "cppvc", "skeleton-equality", "the float instantiation's integer skeleton differs from the verified "
+                             "double one: it needs its own proof")
 
 
 def _gray_replay_child():
